@@ -18,5 +18,4 @@ def check(run, replay=None):
     run.rule = ("same event lattice as C07; every (accepted step, event function) pair is one evaluation of the property's antecedent; "
                 "non-trivial = pair with a strict sign change; distinct by (method, span, mix)")
     C07.run_events(run, replay, PREFIX, "C08")
-    run.assumptions += ["with a requested direction, a crossing on a BACKWARD run is not demanded (the two readings of 'direction' disagree "
-                        "there); with direction 0 every strict sign change is demanded"]
+    run.assumptions += ["direction is read along the run, on backward runs too (see C07); with direction 0 every strict sign change is demanded"]
